@@ -120,3 +120,28 @@ fn ieee_f6_floor_of_int() {
     assert!(x.floor() as i64 == n as i64);
     if n == 0 { assert!(x == 0.0); }
 }
+
+// ---- scaling by a power of two t = 2^k (C02, sub-claim "multiplying all weights by a power of two"): for operands and results in the
+// normal range (strictly above the smallest normal number, so that no product was rounded) multiplication by t is exact, hence
+// order preserving and distributive over +.  These are the facts behind the hypotheses scale_order / p3_scaled of c02_p3_scaling. ----
+fn vx_pow2(e: u16) -> f64 { f64::from_bits((e as u64) << 52) }
+fn vx_nz(x: f64) -> bool { x.is_normal() && (x > f64::MIN_POSITIVE || x < -f64::MIN_POSITIVE) }
+#[kani::proof]
+fn ieee_scale_order() {
+    let a: f64 = kani::any(); let b: f64 = kani::any(); let e: u16 = kani::any();
+    kani::assume(e >= 1 && e <= 2046);
+    let t = vx_pow2(e);
+    let at = a * t; let bt = b * t;
+    kani::assume(vx_nz(a) && vx_nz(b) && vx_nz(at) && vx_nz(bt));
+    assert!((at < bt) == (a < b));
+}
+#[kani::proof]
+fn ieee_scale_add() {
+    let a: f64 = kani::any(); let b: f64 = kani::any(); let e: u16 = kani::any();
+    kani::assume(e >= 1 && e <= 2046);
+    let t = vx_pow2(e);
+    kani::assume(vx_nz(a) && vx_nz(b) && a > 0.0 && b > 0.0 && vx_nz(a * t) && vx_nz(b * t) && vx_nz(a + b));
+    let l = a * t + b * t; let r = (a + b) * t;
+    kani::assume(vx_nz(l) && vx_nz(r));
+    assert!(l == r);
+}
